@@ -340,13 +340,26 @@ func ruleDeadzonePrecedence(c *Ctx, dv *dev, paths []*Path) {
 	pf := newParserFacts(c)
 	if pf.err == nil {
 		var amap, dmap ssa.Value
+		var aFS, dFS fieldStore
 		for _, fs := range pf.fieldStores("KeyMapping") {
 			switch fs.Field.Name() {
 			case "Analog":
-				amap = fs.Val
+				amap, aFS = fs.Val, fs
 			case "DefaultDeadzone":
-				dmap = fs.Val
+				dmap, dFS = fs.Val, fs
 			}
+		}
+		// the map itself, or the same map read back from the field of the mapping under construction
+		isMap := func(m ssa.Value, val ssa.Value, fs fieldStore) bool {
+			if m == val {
+				return true
+			}
+			if ld, ok := m.(*ssa.UnOp); ok && ld.Op == token.MUL {
+				if fa, ok := ld.X.(*ssa.FieldAddr); ok && fs.Lit != nil && fa.X == fs.Lit && fieldOfAddr(fa) == fs.Field {
+					return true
+				}
+			}
+			return false
 		}
 		okCo := false
 		if amap != nil && dmap != nil {
@@ -355,10 +368,10 @@ func ruleDeadzonePrecedence(c *Ctx, dv *dev, paths []*Path) {
 			for _, b := range pf.regionBlocks() { // (the conversion may live in a stage function of the parser)
 				for _, in := range b.Instrs {
 					if mu, ok := in.(*ssa.MapUpdate); ok {
-						if mu.Map == amap {
+						if isMap(mu.Map, amap, aFS) {
 							aKeys, aBlk = append(aKeys, mu.Key), b
 						}
-						if mu.Map == dmap {
+						if isMap(mu.Map, dmap, dFS) {
 							dKeys, dBlk = append(dKeys, mu.Key), b
 						}
 					}
